@@ -87,3 +87,14 @@ Proof.
     destruct H as [H | [H | [H | [H | H]]]]; try discriminate;
       apply Groups_eqb in H; subst g; unfold_geom; ring.
 Qed.
+
+(* ---------------------------------------------------------------- *)
+(* the "convex cell" predicate: the vertex mean of the cell lies strictly on
+   the inner side of every face plane, faces taken in the cell's own (table)
+   orientation.  It holds on every positively oriented affine image of a
+   reference element (table_outward). *)
+Definition cellpts (pos : Z -> RV3) (e : elem) : list RV3 := map pos (snd e).
+Definition odotR (pos : Z -> RV3) (e : elem) (f : face) : R :=
+  outward2 ROps (cellpts pos e) (face_pts pos f).
+Definition cell_outward (pos : Z -> RV3) (e : elem) : Prop :=
+  forall h, In h (elem_faces e) -> 0 < odotR pos e h.
